@@ -90,8 +90,10 @@ PROPS["C02"] = {
              "excludes. Root pass and a pass as uid 65534. Non-trivial = tree has an empty dir, link, special file, long/non-ASCII name, mode "
              "other than 0644/0755 or fractional mtime; distinct by case hash."),
     "assumptions": ["the root directory's own mode/time is not archived", "link mtimes are exempt (property text)", "with ignore on, directories the reference excludes are compared leniently (C03 judges them)"],
-    "quick": [rapid("root", "^TestPropRoundTrip$", 1500, shards=3), rapid("unpriv", "^TestPropRoundTrip$", 1200, shards=1, uid=65534)],
-    "thorough": [rapid("root", "^TestPropRoundTrip$", 12000, shards=10), rapid("unpriv", "^TestPropRoundTrip$", 12000, shards=4, uid=65534)],
+    "quick": [rapid("root", "^TestPropRoundTrip$", 1500, shards=3), rapid("unpriv", "^TestPropRoundTrip$", 1200, shards=1, uid=65534),
+              rapid("umask077", "^TestPropRoundTrip$", 400, shards=1, env={"VERIF_UMASK": "077"})],
+    "thorough": [rapid("root", "^TestPropRoundTrip$", 12000, shards=10), rapid("unpriv", "^TestPropRoundTrip$", 12000, shards=4, uid=65534),
+                 rapid("umask077", "^TestPropRoundTrip$", 4000, shards=2, env={"VERIF_UMASK": "077"})],
 }
 
 PROPS["C15"] = {
@@ -108,10 +110,12 @@ PROPS["C15"] = {
     "assumptions": ["implicit parent directories' mode/mtime are unspecified", "special mode bits are not compared", "unprivileged: a directory without owner r-x may legitimately make Unpack fail"],
     "quick": [plain("exh-root", "^TestExhaustive$", shards=3, env={"VERIF_C15_MAXLEN": 3}),
               plain("exh-unpriv", "^TestExhaustive$", shards=3, uid=65534, env={"VERIF_C15_MAXLEN": 3}),
-              rapid("rapid-root", "^TestProp", 2000, shards=2), rapid("rapid-unpriv", "^TestProp", 1500, shards=1, uid=65534)],
+              rapid("rapid-root", "^TestProp", 2000, shards=2), rapid("rapid-unpriv", "^TestProp", 1500, shards=1, uid=65534),
+              rapid("rapid-umask077", "^TestProp", 500, shards=1, env={"VERIF_UMASK": "077"})],
     "thorough": [plain("exh-root", "^TestExhaustive$", shards=6, env={"VERIF_C15_MAXLEN": 4}),
                  plain("exh-unpriv", "^TestExhaustive$", shards=6, uid=65534, env={"VERIF_C15_MAXLEN": 4}),
-                 rapid("rapid-root", "^TestProp", 15000, shards=8), rapid("rapid-unpriv", "^TestProp", 15000, shards=4, uid=65534)],
+                 rapid("rapid-root", "^TestProp", 15000, shards=8), rapid("rapid-unpriv", "^TestProp", 15000, shards=4, uid=65534),
+                 rapid("rapid-umask077", "^TestProp", 5000, shards=2, env={"VERIF_UMASK": "077"})],
 }
 
 PROPS["C12"] = {
@@ -342,8 +346,8 @@ PROPS["C09"] = {
              "root, and b1's and b3's directory trees must have the same paths, types, contents, permission bits and link targets. "
              "Non-trivial = registry metadata, package metadata or extra files present; distinct by case hash."),
     "assumptions": ["worlds whose build fails for stricter reasons (checksum refuses links to directories) are counted, not judged", "file times are not part of 'the same files'"],
-    "quick": [rapid("survive", "^TestPropSurvive$", 400, shards=4)],
-    "thorough": [rapid("survive", "^TestPropSurvive$", 5000, shards=12)],
+    "quick": [rapid("survive", "^TestPropSurvive$", 400, shards=4), rapid("survive-umask027", "^TestPropSurvive$", 100, shards=1, env={"VERIF_UMASK": "027"})],
+    "thorough": [rapid("survive", "^TestPropSurvive$", 5000, shards=12), rapid("survive-umask027", "^TestPropSurvive$", 1200, shards=2, env={"VERIF_UMASK": "027"})],
 }
 
 PROPS["C10"] = {
